@@ -162,6 +162,9 @@ pub struct Run {
     pub lines: Vec<String>,
     pub clock_ms: u64,
     pub dead: bool,
+    /// dry runs of the crash enumerator keep the whole numbered I/O log
+    pub keep_io_log: bool,
+    pub io_log_all: Vec<verif::IoRec>,
 }
 
 pub fn compound(i: usize, t: &str) -> String {
@@ -204,6 +207,8 @@ impl Run {
             lines: Vec::new(),
             clock_ms: 0,
             dead: false,
+            keep_io_log: false,
+            io_log_all: Vec::new(),
         }
     }
 
@@ -312,8 +317,16 @@ impl Run {
         }
     }
 
-    fn entry_files_from_io_log(&self, n: usize) -> Vec<String> {
+    pub fn drain_io(&mut self) -> Vec<verif::IoRec> {
         let log = verif::take_io_log();
+        if self.keep_io_log {
+            self.io_log_all.extend(log.iter().cloned());
+        }
+        log
+    }
+
+    fn entry_files_from_io_log(&mut self, n: usize) -> Vec<String> {
+        let log = self.drain_io();
         let mut files: Vec<String> = log
             .iter()
             .filter(|r| (r.kind == "write" || r.kind == "uring_write") && r.len >= 256)
@@ -393,7 +406,7 @@ impl Run {
                 };
                 let mut ev = self.with_proj(ev0, i, &t);
                 verif::set_recording(true, false);
-                let _ = verif::take_io_log();
+                let _ = self.drain_io();
                 let w = match self.insts[i].as_ref() {
                     Some(w) => w,
                     None => return,
@@ -406,12 +419,16 @@ impl Run {
                         w.batch_append_for_topic(&rt, &refs)
                     }
                 }));
-                verif::set_recording(false, false);
+                if !self.keep_io_log {
+                    verif::set_recording(false, false);
+                }
+                let mut failed_io = false;
+                let files_ok = if matches!(r, Ok(Ok(()))) { self.entry_files_from_io_log(es.len()) } else { Vec::new() };
                 let o = ev.as_object_mut().unwrap();
                 match r {
                     Ok(Ok(())) => {
                         o.insert("res".into(), json!("ok"));
-                        let files = self.entry_files_from_io_log(es.len());
+                        let files = files_ok;
                         if tlen.is_none() {
                             let list = self.acked.entry(ct.clone()).or_default();
                             for (j, (id, sz)) in es.iter().enumerate() {
@@ -423,15 +440,18 @@ impl Run {
                         }
                     }
                     Ok(Err(e)) => {
-                        let _ = verif::take_io_log();
+                        failed_io = true;
                         o.insert("res".into(), json!("err"));
                         o.insert("kind".into(), json!(err_kind(&e)));
                     }
                     Err(_) => {
-                        let _ = verif::take_io_log();
+                        failed_io = true;
                         o.insert("res".into(), json!("panic"));
                         o.insert("kind".into(), json!("panic"));
                     }
+                }
+                if failed_io {
+                    let _ = self.drain_io();
                 }
                 self.emit(ev);
                 self.emit_reclaims();
